@@ -333,12 +333,29 @@ func compareBackend(c *concretiser, rs *realStack, want []bkEntry) (string, any,
 	return "", nil, nil
 }
 
-// execute runs the operations of b on a fresh real stack and returns the first difference to b.
+// execute runs the operations of the script once on a fresh real stack and compares what it observes
+// with every candidate behaviour (all candidates have the same operations and differ only in what the
+// specification expects, i.e. in how Go map iteration order was resolved). A candidate is dropped at its
+// first difference; the run conforms iff a candidate survives to the end. Returns the index of a
+// surviving candidate, or -1 and the difference of the candidate that survived longest.
 // Must be called inside a synctest bubble.
-func execute(b *behaviour, c *concretiser, nviews int) (d *diff, fatal error) {
+func execute(cands []*behaviour, c *concretiser, nviews int) (survivor int, last *diff, lastIdx int, fatal error) {
+	b := cands[0]
 	rs, err := build(b, nviews)
 	if err != nil {
-		return nil, err
+		return -1, nil, 0, err
+	}
+	alive := make([]bool, len(cands))
+	for i := range alive {
+		alive[i] = true
+	}
+	nalive := len(cands)
+	kill := func(ci int, d *diff) {
+		alive[ci] = false
+		nalive--
+		if last == nil || d.step >= last.step {
+			last, lastIdx = d, ci
+		}
 	}
 	ctx := context.Background()
 	for i := range b.Steps {
@@ -347,23 +364,23 @@ func execute(b *behaviour, c *concretiser, nviews int) (d *diff, fatal error) {
 		if s.Name != "advance" {
 			top = rs.views[s.W]
 			if top == nil {
-				return nil, fmt.Errorf("step %d: no view %d", i, s.W)
+				return -1, nil, 0, fmt.Errorf("step %d: no view %d", i, s.W)
 			}
 		}
 		ttl := time.Duration(s.TTL) * time.Second
-		var what string
-		var got, want any
+		// what the operation itself revealed
+		var opErr error
+		var getRes map[string][]byte
+		panicked := ""
 		func() {
 			defer func() {
 				if r := recover(); r != nil {
-					what, got, want = s.Name+":panic", fmt.Sprint(r), "no panic"
+					panicked = fmt.Sprint(r)
 				}
 			}()
 			switch s.Name {
 			case "set":
-				if err := top.Set(ctx, c.keys[s.Keys[0]], c.vals[s.Vals[0]], ttl); err != nil {
-					what, got, want = "set:error", err.Error(), nil
-				}
+				opErr = top.Set(ctx, c.keys[s.Keys[0]], c.vals[s.Vals[0]], ttl)
 			case "setasync":
 				top.SetAsync(c.keys[s.Keys[0]], c.vals[s.Vals[0]], ttl)
 			case "setmulti":
@@ -373,26 +390,15 @@ func execute(b *behaviour, c *concretiser, nviews int) (d *diff, fatal error) {
 				}
 				top.SetMultiAsync(data, ttl)
 			case "add":
-				err := top.Add(ctx, c.keys[s.Keys[0]], c.vals[s.Vals[0]], ttl)
-				switch {
-				case err == nil && !s.Rep.Stored:
-					what, got, want = "add:stored-over-live-entry", "nil", "ErrNotStored"
-				case err != nil && s.Rep.Stored:
-					what, got, want = "add:refused-without-live-entry", err.Error(), "nil"
-				case err != nil && !errors.Is(err, cache.ErrNotStored):
-					what, got, want = "add:other-error", err.Error(), "ErrNotStored"
-				}
+				opErr = top.Add(ctx, c.keys[s.Keys[0]], c.vals[s.Vals[0]], ttl)
 			case "get":
 				keys := make([]string, len(s.Keys))
 				for j, k := range s.Keys {
 					keys[j] = c.keys[k]
 				}
-				res, err := top.GetMultiWithError(ctx, keys)
-				what, got, want = compareGet(c, s.Keys, s.Rep.Found, s.Rep.Err, res, err)
+				getRes, opErr = top.GetMultiWithError(ctx, keys)
 			case "delete":
-				if err := top.Delete(ctx, c.keys[s.Keys[0]]); err != nil {
-					what, got, want = "delete:error", err.Error(), nil
-				}
+				opErr = top.Delete(ctx, c.keys[s.Keys[0]])
 			case "advance":
 				rs.mock.Advance(ttl)
 				time.Sleep(ttl) // the bubble's clock (time.Now() inside LRUCache) moves by exactly ttl
@@ -401,48 +407,113 @@ func execute(b *behaviour, c *concretiser, nviews int) (d *diff, fatal error) {
 				if hasKind(b.Stack, "ver") {
 					ver = s.W
 				}
-				_ = rs.mock.Set(ctx, c.physical(ver, s.Keys[0]), corruptBytes, ttl)
+				opErr = rs.mock.Set(ctx, c.physical(ver, s.Keys[0]), corruptBytes, ttl)
 			default:
-				what, got, want = "driver:unknown-op", s.Name, nil
+				fatal = fmt.Errorf("unknown operation %q", s.Name)
 			}
 		}()
-		if what == "driver:unknown-op" {
-			return nil, fmt.Errorf("unknown operation %q", s.Name)
+		if fatal != nil {
+			return -1, nil, 0, fatal
 		}
-		if what == "" {
-			what, got, want = compareBackend(c, rs, s.Bk)
+		for ci, cand := range cands {
+			if !alive[ci] {
+				continue
+			}
+			e := &cand.Steps[i]
+			var what string
+			var got, want any
+			switch {
+			case panicked != "":
+				what, got, want = s.Name+":panic", panicked, "no panic"
+			case s.Name == "add":
+				switch {
+				case opErr == nil && !e.Rep.Stored:
+					what, got, want = "add:stored-over-live-entry", "nil", "ErrNotStored"
+				case opErr != nil && e.Rep.Stored:
+					what, got, want = "add:refused-without-live-entry", opErr.Error(), "nil"
+				case opErr != nil && !errors.Is(opErr, cache.ErrNotStored):
+					what, got, want = "add:other-error", opErr.Error(), "ErrNotStored"
+				}
+			case s.Name == "get":
+				what, got, want = compareGet(c, s.Keys, e.Rep.Found, e.Rep.Err, getRes, opErr)
+			case opErr != nil:
+				what, got, want = s.Name+":error", opErr.Error(), nil
+			}
+			if what == "" {
+				what, got, want = compareBackend(c, rs, e.Bk)
+				if what != "" {
+					what = s.Name + ":" + what
+				}
+			}
 			if what != "" {
-				what = s.Name + ":" + what
+				kill(ci, &diff{step: i, what: what, got: got, want: want})
 			}
 		}
-		if what != "" {
-			return &diff{step: i, what: what, got: got, want: want}, nil
+		if nalive == 0 {
+			return -1, last, lastIdx, nil
 		}
 	}
-	for i, e := range b.Sweep {
-		var what string
-		var got, want any
+	for i, e0 := range b.Sweep {
+		var res map[string][]byte
+		var err error
+		panicked := ""
 		func() {
 			defer func() {
 				if r := recover(); r != nil {
-					what, got, want = "sweep:panic", fmt.Sprint(r), "no panic"
+					panicked = fmt.Sprint(r)
 				}
 			}()
-			res, err := rs.views[e.W].GetMultiWithError(ctx, []string{c.keys[e.K]})
-			wantM := map[string]string{}
-			if e.V != "none" {
-				wantM[e.K] = e.V
-			}
-			what, got, want = compareGet(c, []string{e.K}, wantM, e.Err, res, err)
-			if what != "" {
-				what = "sweep:" + what
-			}
+			res, err = rs.views[e0.W].GetMultiWithError(ctx, []string{c.keys[e0.K]})
 		}()
-		if what != "" {
-			return &diff{step: len(b.Steps) + i, what: what, got: got, want: want}, nil
+		for ci, cand := range cands {
+			if !alive[ci] {
+				continue
+			}
+			e := cand.Sweep[i]
+			var what string
+			var got, want any
+			if panicked != "" {
+				what, got, want = "panic", panicked, "no panic"
+			} else {
+				wantM := map[string]string{}
+				if e.V != "none" {
+					wantM[e.K] = e.V
+				}
+				what, got, want = compareGet(c, []string{e.K}, wantM, e.Err, res, err)
+			}
+			if what != "" {
+				kill(ci, &diff{step: len(b.Steps) + i, what: "sweep:" + what, got: got, want: want})
+			}
+		}
+		if nalive == 0 {
+			return -1, last, lastIdx, nil
 		}
 	}
-	return nil, nil
+	for ci := range cands {
+		if alive[ci] {
+			return ci, nil, 0, nil
+		}
+	}
+	return -1, last, lastIdx, nil
+}
+
+// sameOps: all candidates of a script must have the same operations (they come from the same script).
+func sameOps(a, b *behaviour) bool {
+	if len(a.Steps) != len(b.Steps) || len(a.Sweep) != len(b.Sweep) {
+		return false
+	}
+	for i := range a.Steps {
+		x, y := &a.Steps[i], &b.Steps[i]
+		if x.Name != y.Name || x.W != y.W || x.TTL != y.TTL || fmt.Sprint(x.Keys, x.Vals) != fmt.Sprint(y.Keys, y.Vals) {
+			return false
+		}
+	}
+	for i := range a.Sweep {
+		if a.Sweep[i].W != b.Sweep[i].W || a.Sweep[i].K != b.Sweep[i].K {
+			return false
+		}
+	}
+	return true
 }
 
 // nontrivial: the behaviour contains a read that returned a value and, later than some store, a
@@ -560,29 +631,29 @@ func TestReplay(t *testing.T) {
 		if corruptOne > 0 && ngroups == corruptOne {
 			corrupt(&group[0])
 		}
+		cands := make([]*behaviour, len(group))
+		for i := range group {
+			cands[i] = &group[i]
+			if i > 0 && !sameOps(cands[0], cands[i]) {
+				return fmt.Errorf("script %d: candidate behaviours with different operations", groupSid)
+			}
+		}
 		var best *diff
 		var bestB *behaviour
 		matched := false
 		var fatal error
-		// every branch needs a fresh run: the real code is executed once per candidate until one fits
-		for i := range group {
-			b := &group[i]
-			var d *diff
-			synctest.Test(t, func(t *testing.T) {
-				d, fatal = execute(b, c, nviews)
-			})
-			if fatal != nil {
-				return fatal
+		synctest.Test(t, func(t *testing.T) {
+			survivor, d, di, err := execute(cands, c, nviews)
+			fatal = err
+			matched = survivor >= 0
+			if !matched && err == nil {
+				best, bestB = d, cands[di]
 			}
-			opsRun += len(b.Steps) + len(b.Sweep)
-			if d == nil {
-				matched = true
-				break
-			}
-			if best == nil || d.step > best.step {
-				best, bestB = d, b
-			}
+		})
+		if fatal != nil {
+			return fatal
 		}
+		opsRun += len(cands[0].Steps) + len(cands[0].Sweep)
 		res.Cases++
 		branches += len(group)
 		if len(group) > 1 {
